@@ -290,22 +290,95 @@ Definition opt_str_eqb (a b : option string) : bool :=
 Definition children (db : list row) (gid : string) : list row :=
   filter (fun r => opt_str_eqb (r_parent r) (Some gid)) db.
 
-(* Fit.best_fit: first strict maximum over the children; None models the TypeError raised when a
-   child has no likelihood or there are no children *)
-Fixpoint best_row_from (cur : row) (curll : Z) (l : list row) : option row :=
+(* ---- the best fit of a grid search, through both routes the library offers ----
+   Likelihoods are order-preserving integer keys of binary64 values (0.0 and -0.0 share key 0; NaN is
+   outside the generated inputs).  `neg_inf_key` is the key of float("-inf"). *)
+Definition neg_inf_key : Z := (-9218868437227405312)%Z.
+
+Inductive best_outcome :=
+| BestRaised            (* TypeError: no children, or a child without likelihood reached `>` *)
+| BestNone              (* the property returned None *)
+| BestIs (r : row).
+
+(* Fit.best_fit as written:  best_fit = None; max = -inf
+                             for fit in children: if fit.max_log_likelihood > max: best_fit, max = fit, ...
+   `None > float` raises TypeError whichever child it is; the comparison is strict, so the first of tied cells
+   wins and a grid all of whose cells hold -inf keeps best_fit = None *)
+Fixpoint best_loop (cur : option row) (curll : Z) (l : list row) : best_outcome :=
   match l with
-  | [] => Some cur
+  | [] => match cur with Some r => BestIs r | None => BestNone end
   | r :: rest =>
       match r_maxll r with
-      | None => None
-      | Some v => if Z.ltb curll v then best_row_from r v rest else best_row_from cur curll rest
+      | None => BestRaised
+      | Some v => if Z.ltb curll v then best_loop (Some r) v rest else best_loop cur curll rest
       end
   end.
-Definition best_child (db : list row) (gid : string) : option row :=
-  match children db gid with
-  | [] => None
-  | r :: rest => match r_maxll r with None => None | Some v => best_row_from r v rest end
+Definition best_of_cells (l : list row) : best_outcome :=
+  match l with [] => BestRaised | _ => best_loop None neg_inf_key l end.
+Definition best_child (db : list row) (gid : string) : best_outcome := best_of_cells (children db gid).
+
+(* the repair proposed in proposed_fixes/C11-best-fit-cells-without-likelihood.diff:
+     for fit in children: if fit.max_log_likelihood is None: continue
+                          if best_fit is None or fit.max_log_likelihood > best_fit.max_log_likelihood: best_fit = fit *)
+Fixpoint best_loop_repaired (cur : option (row * Z)) (l : list row) : option row :=
+  match l with
+  | [] => option_map fst cur
+  | r :: rest =>
+      match r_maxll r with
+      | None => best_loop_repaired cur rest
+      | Some v => match cur with
+                  | None => best_loop_repaired (Some (r, v)) rest
+                  | Some (_, w) => if Z.ltb w v then best_loop_repaired (Some (r, v)) rest
+                                   else best_loop_repaired cur rest
+                  end
+      end
   end.
+Definition best_child_repaired (db : list row) (gid : string) : best_outcome :=
+  match children db gid with
+  | [] => BestRaised
+  | l => match best_loop_repaired None l with Some r => BestIs r | None => BestNone end
+  end.
+
+(* aggregator.grid_searches().best_fits() (BestFitQuery): per parent, the children whose likelihood equals
+   max(likelihood) of the children; SQL max ignores NULL and `= NULL` is never true *)
+Definition likelihoods (l : list row) : list Z :=
+  flat_map (fun r => match r_maxll r with Some v => [v] | None => [] end) l.
+Fixpoint zmax_list (l : list Z) : option Z :=
+  match l with
+  | [] => None
+  | x :: r => match zmax_list r with None => Some x | Some m => Some (Z.max x m) end
+  end.
+Definition has_ll (m : Z) (r : row) : bool :=
+  match r_maxll r with Some v => Z.eqb v m | None => false end.
+Definition best_fits_query (db : list row) (gid : string) : list row :=
+  match zmax_list (likelihoods (children db gid)) with
+  | None => []
+  | Some m => filter (has_ll m) (children db gid)
+  end.
+
+(* the property's notion of best fit: `b` is a cell of `l` holding a likelihood no cell of `l` that holds one exceeds *)
+Definition highest_in (l : list row) (b : row) : Prop :=
+  In b l /\ exists w, r_maxll b = Some w /\ forall c u, In c l -> r_maxll c = Some u -> (u <= w)%Z.
+
+(* what the implementation showed for one grid search: Fit.best_fit, and the ids best_fits() lists under it *)
+Inductive best_obs := ObsBestRaised | ObsBestNone | ObsBestId (id : string).
+Definition str_mem (x : string) (l : list string) : bool := existsb (String.eqb x) l.
+Definition same_ids (a b : list string) : bool :=
+  forallb (fun x => str_mem x b) a && forallb (fun x => str_mem x a) b.
+(* Fit.best_fit is compared up to ties (the order in which the relationship lists the cells is SQL's):
+   same kind of outcome, and the observed cell is a child holding the likelihood of the model's best cell *)
+Definition best_matches (repaired : bool) (db : list row) (gid : string) (o : best_obs) : bool :=
+  match (if repaired then best_child_repaired db gid else best_child db gid), o with
+  | BestRaised, ObsBestRaised => true
+  | BestNone, ObsBestNone => true
+  | BestIs b, ObsBestId id =>
+      existsb (fun r => String.eqb (r_id r) id
+                        && match r_maxll r, r_maxll b with Some x, Some y => Z.eqb x y | _, _ => false end) (children db gid)
+  | _, _ => false
+  end.
+Definition grid_obs_matches (repaired : bool) (db : list row) (p : string * best_obs * list string) : bool :=
+  let '(gid, o, q) := p in
+  best_matches repaired db gid o && same_ids (map r_id (best_fits_query db gid)) q.
 
 (* ------------------------------------------------------------------------------------------ *)
 (* C. the fits themselves: what `search.fit` leaves in a directory / in a session               *)
@@ -488,9 +561,11 @@ Inductive case :=
 | CFits (co : bool) (specs : list fit_spec) (walk : list nat)
         (found : list folder) (obs : observed) (direct : list (option row)) (unfaithful : list (list string))
 (* arbitrary directory (grid searches, copies, equal identifiers): scrape dir = observed database;
-   per grid search: observed best fit id *)
-| CDir (co : bool) (dir : list folder) (obs : observed) (best_ids : list (string * option string))
+   per grid search: observed Fit.best_fit outcome and the ids best_fits() lists for it *)
+| CDir (co : bool) (dir : list folder) (obs : observed) (best_ids : list (string * best_obs * list string))
        (unfaithful : list (list string))
+       (repaired : bool)   (* which Fit.best_fit the running code has: as written (false) | skipping cells without
+                              likelihood, no start value (true) -- read from the source by the harness *)
 (* two directories loaded one after the other into the same database *)
 | CDir2 (co : bool) (dirA dirB : list folder) (obsA obsB : observed)
 (* archives and folders as they lie on disk BEFORE the load (each read on its own): the loaded database is
@@ -520,12 +595,12 @@ Definition check_case (classes : list search_class) (uf : bool) (c : case) : boo
       && forallb (faithful_as_expected unfaithful) found
       && forallb (fun s => if is_prefit s || String.eqb (fs_reload_id s) "" then true
                            else Bool.eqb (spec_faithful s) (negb (path_mem (spec_path s) unfaithful))) specs
-  | CDir co dir obs best_ids unfaithful =>
+  | CDir co dir obs best_ids unfaithful repaired =>
       outcome_matches [] (scrape classes uf co dir []) obs
       && forallb (folder_keys_known classes) dir
       && forallb (faithful_as_expected unfaithful) dir
       && match scrape classes uf co dir [] with
-         | Loaded db => forallb (fun p => opt_str_eqb (option_map r_id (best_child db (fst p))) (snd p)) best_ids
+         | Loaded db => forallb (grid_obs_matches repaired db) best_ids
          | Raised _ => true
          end
   | CDisk co ds found obs =>
